@@ -66,3 +66,8 @@ class CanaryLU(Linear):
     def logabsdet(self):
         # numerically fragile and (NUM-LOGSPACE) a log of a product
         return torch.log(torch.prod(torch.exp(self.log_diag)))
+
+    def _spread(self, inputs):
+        m = inputs.mean(0)
+        var = inputs.pow(2).mean(0) - m.pow(2)
+        return var
